@@ -40,8 +40,23 @@ func ParseSps(payload []byte, ctx *Context) error {
 	}
 	Log.Debugf("sps=%+v", sps)
 
-	ctx.Width = (sps.PicWidthInMbsMinusOne+1)*16 - (sps.FrameCropLeftOffset+sps.FrameCropRightOffset)*2
-	ctx.Height = (2-uint32(sps.FrameMbsOnlyFlag))*(sps.PicHeightInMapUnitsMinusOne+1)*16 - (sps.FrameCropTopOffset+sps.FrameCropBottomOffset)*2
+	// 裁剪偏移量的单位取决于色度格式以及是否为帧编码，见H.264标准 7.4.2.1.1 (CropUnitX, CropUnitY)
+	chromaArrayType := sps.ChromaFormatIdc
+	if sps.ChromaFormatIdc == 3 && sps.ResidualColorTransformFlag == 1 {
+		// separate_colour_plane_flag
+		chromaArrayType = 0
+	}
+	cropUnitX, cropUnitY := uint32(1), uint32(1)
+	switch chromaArrayType {
+	case 1: // 4:2:0
+		cropUnitX, cropUnitY = 2, 2
+	case 2: // 4:2:2
+		cropUnitX, cropUnitY = 2, 1
+	}
+	cropUnitY *= 2 - uint32(sps.FrameMbsOnlyFlag)
+
+	ctx.Width = (sps.PicWidthInMbsMinusOne+1)*16 - (sps.FrameCropLeftOffset+sps.FrameCropRightOffset)*cropUnitX
+	ctx.Height = (2-uint32(sps.FrameMbsOnlyFlag))*(sps.PicHeightInMapUnitsMinusOne+1)*16 - (sps.FrameCropTopOffset+sps.FrameCropBottomOffset)*cropUnitY
 
 	ctx.Sps = sps
 	return nil
